@@ -69,6 +69,42 @@ CONTRACTS["project:ProjectSettings.sim_dt.setter"] = dict(
     ],
     frame_props=["C03"], defined_props=["C03"])
 
+# update_time_vector(start, end, dt) -- the entry point of Project.update_settings and of ProjectSettings.__init__: one contract per
+# combination of given / omitted arguments (an omitted argument is the constant None).  Whatever is given is stored as given, and
+# the end is the first point of the NEW grid at or after the requested end (the previous end when no end is given): in
+# particular a new step without a new end must re-fit the end.
+for _s in (0, 1):
+    for _e in (0, 1):
+        for _d in (0, 1):
+            if not (_s or _e or _d):
+                continue
+            _want_end = "end" if _e else "old(self._sim_end)"
+            CONTRACTS["project:ProjectSettings.update_time_vector#%s" % "_".join(n for n, f in (("start", _s), ("end", _e), ("dt", _d)) if f)] = dict(
+                schema=schema,
+                params={"start": "real" if _s else "const:None", "end": "real" if _e else "const:None", "dt": "real" if _d else "const:None"},
+                requires=_real_ranges + ([] if _e else [_on_grid, "self._sim_end >= self._sim_start"]) + (["dt > 0"] if _d else [])
+                + (["start <= self._sim_end"] if _s else []) + (["end >= %s" % ("start" if _s else "self._sim_start")] if _e else []),
+                modifies=["self._sim_start", "self._sim_end", "self._sim_dt"],
+                ensures=[
+                    ("C03.end_lies_on_the_grid", _on_grid),
+                    ("C03.start_is_as_requested", "self._sim_start == %s" % ("start" if _s else "old(self._sim_start)")),
+                    ("C03.step_is_as_requested", "self._sim_dt == %s" % ("dt" if _d else "old(self._sim_dt)")),
+                    ("C03.end_is_the_first_grid_point_at_or_after_the_request",
+                     "(self._sim_end - self._sim_start) / self._sim_dt >= (%s - self._sim_start) / self._sim_dt - 1 / 100000000 and (self._sim_end - self._sim_start) / self._sim_dt < (%s - self._sim_start) / self._sim_dt + 1" % (_want_end, _want_end)),
+                ],
+                frame_props=["C03"], defined_props=["C03"])
+
+# the constructor: whatever the three numbers, the object starts out with its end on the grid
+CONTRACTS["project:ProjectSettings.__init__"] = dict(
+    schema=schema, params={"sim_start": "real", "sim_end": "real", "sim_dt": "real"},
+    requires=["sim_dt > 0", "sim_end >= sim_start"],
+    modifies=["self._sim_start", "self._sim_end", "self._sim_dt"],
+    ensures=[
+        ("C03.end_lies_on_the_grid", _on_grid),
+        ("C03.start_and_step_are_as_given", "self._sim_start == sim_start and self._sim_dt == sim_dt"),
+        ("C03.end_is_the_first_grid_point_at_or_after_the_request", "(self._sim_end - sim_start) / sim_dt >= (sim_end - sim_start) / sim_dt - 1 / 100000000 and (self._sim_end - sim_start) / sim_dt < (sim_end - sim_start) / sim_dt + 1"),
+    ],
+    frame_props=["C03"], defined_props=["C03"])
 
 def _bounded_grid_sweep(tier="quick", seed=0):
     """BOUNDED stand-in (never counted as proved) for the rounding behaviour of the sim_end setter on real doubles: exact
